@@ -371,8 +371,11 @@ def generate(rng: random.Random, tier: str):
                                  "query": {"q": "can_split_ta", "pos": pos, "depth": depth,
                                            "types_after": [[w.type.name, w.attrs] for w in ta]}, "answer": ans[1]},
                            schema=info.schema_term(), kind=f"struct:can_split_ta/{ans[1].split(chr(58))[0]}", nontrivial=True)
-                if ans[1] == "True" and not any(w.type.is_leaf for w in ta):
-                    # (a leaf type cannot be split into: asking for one is outside what the helper is for)
+                if ans[1] == "True" and not any(w.type.is_leaf for w in ta) and \
+                        all(w.type.compatible_content(rp.node(base + 1 + j).type) for j, w in enumerate(ta)):
+                    # (a leaf type cannot be split into, and a type whose content is of another kind than the split node's
+                    # - a blockquote split "into a heading" - cannot be joined onto it: such requests are outside what the
+                    # helper is for; upstream's canSplit approves and split throws for them as well)
                     # ... and the promise: Transform.split with these types then succeeds and gives a valid document
                     yield helper_case(rng, fam, g, doc, docs, "can_split",
                                       {"a": pos, "depth": depth, "types_after": [[w.type.name, w.attrs] for w in ta]})
